@@ -41,7 +41,7 @@ struct Source {
 
 fn candidates(c: &Corpus) -> Vec<usize> {
     // the derive macros take no options: only sources that need none
-    c.entries.iter().enumerate().filter(|(_, e)| !e.opts.contains_key("rust") && !e.id.starts_with("ana_") && !e.id.starts_with("derive_test_") && e.text.len() < 40_000).map(|(i, _)| i).collect()
+    c.entries.iter().enumerate().filter(|(_, e)| !e.opts.contains_key("rust") && !e.id.starts_with("ana_") && !e.id.starts_with("derive_test_") && e.id != "hand_derived_names" && e.id != "hand_many" && e.text.len() < 40_000).map(|(i, _)| i).collect()
 }
 
 fn draw_sources(rng: &mut Rng, c: &Corpus, n: usize, round: u64) -> Vec<Source> {
